@@ -33,7 +33,12 @@ def session(seed):
         N = U.random_nfa(rng, rng.randint(1, 3), S if rng.random() < 0.8 else S[:1], eps=eps, prefix=pf,
                          total=rng.random() < 0.3)
         pool.append(N)
-    own = IdentifierGenerator(rng.choice([0, 0, 5])) if rng.random() < 0.3 else None
+    own = IdentifierGenerator(rng.choice([0, 0, 5, 9, 9, 10])) if rng.random() < 0.4 else None
+    if rng.random() < 0.3:
+        # operand states q8, q9, q10, q11, ...: the generator's proposals collide several times in a row
+        big = U.random_nfa(rng, rng.randint(3, 5), S, eps=eps, prefix="s", total=rng.random() < 0.3)
+        off = rng.choice([7, 8, 9])
+        pool.append(U.rename_fa(big, {q: "q%d" % (int(q[1:]) + off) for q in big.Q}))
     steps = rng.randint(2, 5)
     for step in range(steps):
         op = rng.choice(["union", "concatenation", "repetition", "repetition"])
